@@ -92,6 +92,14 @@ pub fn field_variants(t: &mut Tape, plan: &XzPlan) -> Vec<(XzPlan, &'static str,
         p.ov_fflags = Some([b0, plan.check_id]);
         v.push((p, "footer.flags", format!("footer flags {:02x} {:02x}", b0, plan.check_id)));
     }
+    // the same in the header only (the header's own CRC32 covers the byte as
+    // written; the footer carries the regular flags)
+    for b0 in [1u8, 0x80, 1 + t.below(255) as u8] {
+        let mut p = plan.clone();
+        p.ov_hflags = Some([b0, plan.check_id]);
+        p.ov_fflags = Some([0, plan.check_id]);
+        v.push((p, "header.flags", format!("header flags {:02x} {:02x}, footer flags 00 {:02x}", b0, plan.check_id, plan.check_id)));
+    }
     // CRC fields themselves
     let crcs: [(&'static str, fn(&mut XzPlan, u32)); 3] = [
         ("header.crc32", |p, x| p.ov_hcrc = Some(x)),
@@ -297,6 +305,20 @@ pub fn field_variants(t: &mut Tape, plan: &XzPlan) -> Vec<(XzPlan, &'static str,
                 v.push((p, "block.header_pad", format!("block {} header padding byte {} non-zero", bi, i)));
             }
         }
+        // several header padding bytes non-zero at once (equal, cancelling under xor
+        // or sum), at a drawn place inside the padding
+        if let Some(f) = field(&format!("block{}.header_pad", bi)) {
+            if f.len >= 2 {
+                let w = if f.len >= 3 && t.below(2) == 0 { 3 } else { 2 };
+                let at = t.below((f.len - w + 1) as u64) as usize;
+                for pad in multi_pads(t, w) {
+                    let mut p = plan.clone();
+                    let note = format!("block {} header padding bytes {:02x?} at padding offset {}", bi, pad, at);
+                    p.blocks[bi].ov_hpads = Some((at, pad));
+                    v.push((p, "block.header_pad", note));
+                }
+            }
+        }
         // size byte (CRC recomputed over the bytes as written)
         let sb = built.bytes[hdr_field.off];
         for x in [sb.wrapping_add(1), sb.wrapping_sub(1), 0xFF, 1] {
@@ -481,7 +503,7 @@ impl Property for C06 {
         "fault_enumeration"
     }
     fn rule(&self) -> &'static str {
-        "per seeded valid .xz file (0-3 blocks, check None/CRC32/CRC64, optional fields, paddings): (a) one bit flipped — every bit position in the thorough tier, a sample in quick; (b) truncation at every (sampled) offset; (c) every integrity/size field (magics, stream flags, the 4 kinds of CRC32, backward size, index count and records (also two records wrong together with both column sums preserved; also every size/count integer spelt over-long in ten bytes whose first nine carry the true value), declared block sizes, size byte, all paddings (one byte non-zero; several at once: equal, cancelling under xor or sum, all 0xFF), check field) replaced by values from {0, 1, true±1, true+4, true+2^30·k, true+2^32, 2^31, 2^32-1, 2^63-1, random} with every enclosing CRC recomputed. One evaluation = one mutated file through xz_decompress (reader rotating over: slice, 1-byte refills, fixed k, irregular refills); Ok obliges (1) the field-exact judge to confirm every listed field against the delivered bytes and (2) for CRC32/CRC64 files delivered == original; all cases distinct by scenario hash and non-trivial"
+        "per seeded valid .xz file (0-3 blocks, check None/CRC32/CRC64, optional fields, paddings): (a) one bit flipped — every bit position in the thorough tier, a sample in quick; (b) truncation at every (sampled) offset; (c) every integrity/size field (magics, stream flags incl. the reserved first byte on one side only, the 4 kinds of CRC32, backward size, index count and records (also two records wrong together with both column sums preserved; also every size/count integer spelt over-long in ten bytes whose first nine carry the true value), declared block sizes, size byte, all paddings incl. the block header's (one byte non-zero; several at once: equal, cancelling under xor or sum, all 0xFF), check field) replaced by values from {0, 1, true±1, true+4, true+2^30·k, true+2^32, 2^31, 2^32-1, 2^63-1, random} with every enclosing CRC recomputed. One evaluation = one mutated file through xz_decompress (reader rotating over: slice, 1-byte refills, fixed k, irregular refills); Ok obliges (1) the field-exact judge to confirm every listed field against the delivered bytes and (2) for CRC32/CRC64 files delivered == original; all cases distinct by scenario hash and non-trivial"
     }
     fn runs(&self, tier: Tier) -> u64 {
         match tier {
@@ -582,7 +604,7 @@ impl Property for C06 {
                 "block.pad" | "block.header_pad" => "probe.substituted_padding",
                 "block.check" => "probe.substituted_check_field",
                 "header.magic" | "footer.magic" => "probe.substituted_magic",
-                "footer.flags" => "probe.header_footer_flags_disagree",
+                "footer.flags" | "header.flags" => "probe.header_footer_flags_disagree",
                 _ => "probe.substituted_crc_field",
             };
             ctx.stats.hit(key);
